@@ -56,4 +56,9 @@ def main(tier: str) -> int:
         run.violation(f"{v['clause']}|{ev.get('name')}", {"kind": v["clause"], "src": tr[0]["src"], "entry_point": ev.get("name"),
                                                        "changed_parts": [k for k in ev.get("before", {}) if ev["before"][k] != ev["after"].get(k)],
                                                        "calls_before": [e.get("name") for e in tr[1: v["l"]]][-5:]})
+    # the reads made in the middle of package histories (parts read through get_part between edits, deletions, saves, in
+    # every way of opening a document - also parts that were deleted: asking for one must not bring it back)
+    from harness.pkg_engine import run_package_property
+
+    run_package_property(run, tier, prefixes=("C15:",), ntraces=160 if tier == "quick" else 2000, mc=False)
     return run.finish()
